@@ -373,6 +373,63 @@ func c05SubscribeVsClose() vs.Verdict {
 	return f.verdict(subRes)
 }
 
+// c05ConnectVsKick: Server.Connect on an in-memory transport races server code that closes every
+// session it can see (`for ss := range server.Sessions() { ss.Close() }` - a shutdown sweep while a new
+// client is connecting); the client connects from the other end.  Whatever the order: Connect returns (a
+// session or an error), every Close returns, the client's Connect returns, a session that was closed is
+// forgotten by the server, and nothing is left running.
+func c05ConnectVsKick() vs.Verdict {
+	f := &e1Fail{prefix: "c05b connect-vs-kick"}
+	ctx := context.Background()
+	s := NewServer(&Implementation{Name: "srv", Version: "1"}, &ServerOptions{Logger: quietLogger})
+	c := NewClient(&Implementation{Name: "cli", Version: "1"}, &ClientOptions{Logger: quietLogger})
+	ct, st := NewInMemoryTransports()
+	done := make(chan string, 8)
+	var ss *ServerSession
+	var cs *ClientSession
+	vs.Go(func() {
+		var err error
+		if ss, err = s.Connect(ctx, st, nil); err != nil {
+			done <- "sconnect:err"
+		} else {
+			done <- "sconnect:ok"
+		}
+	})
+	kicked := 0
+	vs.Go(func() {
+		vs.Point()
+		for x := range s.Sessions() {
+			kicked++
+			x.Close()
+		}
+		done <- "kick"
+	})
+	vs.Go(func() {
+		var err error
+		if cs, err = c.Connect(ctx, ct, &ClientSessionOptions{ProtocolVersion: "2025-06-18"}); err != nil {
+			done <- "cconnect:err"
+		} else {
+			done <- "cconnect:ok"
+		}
+	})
+	var res []string
+	for i := 0; i < 3; i++ {
+		res = append(res, <-done)
+	}
+	slices.Sort(res)
+	if cs != nil {
+		cs.Close()
+	}
+	if ss != nil {
+		ss.Close()
+	}
+	vs.WaitIdle()
+	if left := slices.Collect(s.Sessions()); len(left) != 0 {
+		f.failf("server-session-not-removed", "after every session was closed the server still lists %d session(s)", len(left))
+	}
+	return f.verdict(fmt.Sprintf("%s kicked=%d", strings.Join(res, ","), kicked))
+}
+
 // c05StreamableClient: the real streamable HTTP client (standalone SSE stream attached) against
 // the real stateful handler, in process.  A tool call is in flight (its handler parked on a gate the
 // controller opens when everything else has come to rest) when the client, the server, or both
@@ -665,6 +722,7 @@ func TestVerifC05(t *testing.T) {
 		vs.E1(t, "b/roots-broadcast-vs-close/closed-by-client", env.Pick(1, 2), vs.Options{}, func() vs.Verdict { return c05RootsBroadcastVsClose("client") }),
 		vs.E1(t, "b/roots-broadcast-vs-close/closed-by-server", env.Pick(1, 2), vs.Options{}, func() vs.Verdict { return c05RootsBroadcastVsClose("server") }),
 		vs.E1(t, "b/subscribe-vs-close/2026-07-28", env.Pick(2, 3), vs.Options{}, func() vs.Verdict { return c05SubscribeVsClose() }),
+		vs.E1(t, "b/connect-vs-kick", env.Pick(2, 3), vs.Options{}, func() vs.Verdict { return c05ConnectVsKick() }),
 		vs.E1(t, "b/streamable-client-close-vs-call", env.Pick(1, 2), vs.Options{}, func() vs.Verdict { return c05StreamableClient() }),
 		vs.E1(t, "b/streamable-close-vs-posts", env.Pick(1, 2), vs.Options{}, func() vs.Verdict { return c05StreamableClose() }),
 	}
